@@ -306,6 +306,23 @@ package kafka
 //@   modifies heap
 //@   ghostdef ptw.$inflight == false
 //@   ensures batch.$completed && !ptw.$inflight
+// C01: a batch is completed WITHOUT an error only after a produce request for it was acknowledged without an error:
+// $acked is set by (and only by) the outcome of the last w.produce call - at least one attempt is always made.
+//@   ghostdef batch.$acked == false
+//@   callsite (*Writer).produce modifies batch.$acked
+//@   callsite (*Writer).produce ensures batch.$acked == ((result0 != nil && isnil(result0.Error)) || (result0 == nil && isnil(result1)))
+//@   callsite (*writeBatch).complete requires $0 == batch && (isnil($1) ==> batch.$acked)
+//@   loop 0 invariant maxAttempts >= 1
+//@   loop 0 invariant attempt == 0 || !isnil(err)
+//@ func (*Writer).withLogger
+//@   trusted logging only (the callbacks passed by the writer only read their captured variables)
+//@ func (*Writer).withErrorLogger
+//@   trusted logging only (the callbacks passed by the writer only read their captured variables)
+//@ func (*Writer).maxAttempts
+//@   pure
+//@   reads w.MaxAttempts
+//@   ensures result >= 1
+//@   ensures w.MaxAttempts > 0 ==> result == w.MaxAttempts
 //@ func (*partitionWriter).writeBatches
 //@   requires !ptw.$inflight
 //@   option noframe
